@@ -139,7 +139,7 @@ def write_item(it, k, d, model):
             if it["w"] == "dfsd":
                 if it["fill"]:
                     p.call("i", "DFSDsetfillvalue", fillv.tobytes())
-                p.call("i", "DFSDadddata", F, len(dims), i32s(*dims), a.tobytes())
+                p.call("i", "DFSDadddata" if model["created"] else "DFSDputdata", F, len(dims), i32s(*dims), a.tobytes())
             else:
                 if it["fill"]:
                     p.call("i", "DFSDsetfillvalue", fillv.tobytes())
@@ -200,7 +200,8 @@ def write_item(it, k, d, model):
             comp = {"none": 0, "rle": 11, "deflate": 0}[it["comp"]]
             if it["comp"] == "deflate":
                 it["comp"] = "none"
-            p.call("i", "DFR8addimage", F, img.tobytes(), x, y, comp)
+            # the first object of a new file goes through the "put" call (which creates/overwrites the file)
+            p.call("i", "DFR8addimage" if model["created"] else "DFR8putimage", F, img.tobytes(), x, y, comp)
         else:
             p.call("i", "Hopen", F, 3 if model["created"] else 4, 0, bind="f")
             p.call("i", "GRstart", V("f"), bind="gr")
@@ -222,7 +223,7 @@ def write_item(it, k, d, model):
         it["img"] = img
         if it["w"] == "df24":
             p.call("i", "DF24setil", il)
-            p.call("i", "DF24addimage", F, il_bytes(img, il), x, y)
+            p.call("i", "DF24addimage" if model["created"] else "DF24putimage", F, il_bytes(img, il), x, y)
         else:
             p.call("i", "Hopen", F, 3 if model["created"] else 4, 0, bind="f")
             p.call("i", "GRstart", V("f"), bind="gr")
